@@ -7,6 +7,9 @@ R155 = ["C15/R15.5/variable_versions::ipfix::Data::parse_be/cached-template-copi
         "C15/R15.5/variable_versions::v9::OptionsData::parse_be/cached-template-copied:V9Parser.options_templates",
         "C15/R15.5/decode-path/cache-lookups-borrowed"]
 R57 = ["C05/R5.7/variable_versions::ipfix::FieldParser::parse/stop-criterion:ipfix-data"]
-OLD_BASES = [("1c167e7", P255),
-             ("d7a156f", P255 + R155),
-             ("e7d44c8", P255 + R155 + R57)]
+V9C = ["C13/R13.3/<netflow_common::NetflowCommon as std::convert::From<&variable_versions::v9::V9>>::from/kind:%s" % x
+       for x in ("protocol_number<-Protocol", "protocol_type<-Protocol", "first_seen<-FirstSwitched", "last_seen<-LastSwitched")]
+OLD_BASES = [("2d4f2e3", V9C),
+             ("1c167e7", V9C + P255),
+             ("d7a156f", V9C + P255 + R155),
+             ("e7d44c8", V9C + P255 + R155 + R57)]
